@@ -8,8 +8,15 @@ package main
 //	    obs: <status:class:kind> ;; comp=<used> mem=<used> loops=<n> calls=<n>
 //	depth <configured limit> <D> [<shape>]
 //	    `f(D)` recursing D deep under runtime.Config.StackDepthLimit (0 = default), both engines;
-//	    shape = fun (default) | method | closure | mutual | tx (closure recursion inside prepare);
+//	    shape = fun (default) | method | closure | mutual | tx (closure recursion inside prepare)
+//	    | sinit (struct initializer constructing the struct) | rinit (resource initializer creating the
+//	    resource) | rnest (the same, each level keeps its child; the chain is destroyed at the end)
+//	    | initm (initializer -> method -> initializer) | rinitev (rinit with a ResourceDestroyed event);
 //	    obs: interp=<outcome> vm=<outcome>
+//	seq <configured limit> <K> <form> <base>
+//	    no recursion in the loop: K *sequential* invocations of one form (bdSeqForms), made by a loop that runs
+//	    `base` Cadence invocations below the entry point (base 0 = in the entry point itself), under
+//	    runtime.Config.StackDepthLimit, both engines; obs: interp=<outcome> vm=<outcome>
 //	hang           the child exceeded the wall-clock bound without any limit error, and did so again when
 //	               the operation was re-run alone with 3x the bound (see bdExec)
 //	crash:<line>   the child died (Go stack overflow, out of memory, fatal error)
@@ -143,6 +150,12 @@ var bdFamilies = []bdFamily{
 	{"method-recursion", func(r *hx.Rng) meterx.Prog {
 		return bdScript("access(all) struct T { access(all) fun m(_ n: Int): Int { return self.m(n + 1) } }", "acc = T().m(0)")
 	}},
+	{"init-recursion", func(r *hx.Rng) meterx.Prog {
+		return bdScript("access(all) struct S { access(all) let d: Int\n init(_ n: Int) { let s = S(n + 1); self.d = s.d + 1 } }", "let s = S(0); acc = s.d")
+	}},
+	{"resource-init-recursion", func(r *hx.Rng) meterx.Prog {
+		return bdScript("access(all) resource R { access(all) var child: @R?\n init(_ n: Int) { self.child <- create R(n + 1) } }", "let r <- create R(0); destroy r")
+	}},
 	{"deep-array-tostring", func(r *hx.Rng) meterx.Prog {
 		n := bdDeepSizes[r.Intn(len(bdDeepSizes))]
 		return bdScript("", fmt.Sprintf("var v: AnyStruct = 0; var i = 0; while i < %d { v = [v]; i = i + 1 }; log(v); acc = i", n))
@@ -210,6 +223,46 @@ func bdGen(c *hx.Ctx) {
 			c.Emit("depth", "0", strconv.Itoa(d))
 		}
 	}
+	// recursion through initializers (composite constructors), far beyond the limit too
+	for _, shape := range bdInitShapes {
+		for _, lim := range []int{0, 10, 50} {
+			eff := lim
+			if eff == 0 {
+				eff = 2000
+			}
+			ds := []int{eff - 2, eff - 1, eff, eff + 4, 5*eff + 1}
+			if lim == 0 && !c.Thorough() {
+				// (a failure at the default limit takes 10-40 s: unwinding 2000 levels; rnest moves the
+				// whole chain at every level)
+				if shape == "rnest" {
+					continue
+				}
+				ds = []int{eff - 1, eff}
+			}
+			for _, d := range ds {
+				c.Emit("depth", strconv.Itoa(lim), strconv.Itoa(d), shape)
+			}
+		}
+	}
+	// sequential invocations do not accumulate depth: 3x the limit calls of every invocation form, made
+	// directly in the entry point and made at depth limit - 1 (each call then reaches exactly the limit);
+	// for the forms that invoke a Cadence function also at depth = limit (every call is one too deep)
+	for _, f := range bdSeqForms {
+		for _, lim := range []int{0, 10, 50} {
+			eff := lim
+			if eff == 0 {
+				eff = 2000
+			}
+			k := strconv.Itoa(3 * eff)
+			c.Emit("seq", strconv.Itoa(lim), k, f.name, "0")
+			if lim != 0 || c.Thorough() || f.kind == "opt" {
+				c.Emit("seq", strconv.Itoa(lim), k, f.name, strconv.Itoa(eff-1))
+			}
+			if lim == 10 && f.kind != "native" {
+				c.Emit("seq", strconv.Itoa(lim), k, f.name, strconv.Itoa(eff))
+			}
+		}
+	}
 	for i := 0; i < c.N; i++ {
 		r := c.Rng.Fork()
 		f := bdFamilies[i%len(bdFamilies)]
@@ -236,6 +289,9 @@ func bdGen(c *hx.Ctx) {
 var bdDepthShapes = []string{"fun", "method", "closure", "mutual", "tx"}
 
 func bdDepthProgram(d int, shape string) meterx.Prog {
+	if p, ok := bdInitProgram(d, shape); ok {
+		return p
+	}
 	switch shape {
 	case "method":
 		return meterx.Prog{Kind: "script", Src: fmt.Sprintf("access(all) struct T { access(all) fun m(_ n: Int): Int { if n <= 0 { return 0 }; return 1 + self.m(n - 1) } }\naccess(all) fun main(): Int { let t = T(); return t.m(%d) }", d)}
@@ -247,6 +303,93 @@ func bdDepthProgram(d int, shape string) meterx.Prog {
 		return meterx.Prog{Kind: "tx", Signers: 1, Src: fmt.Sprintf("transaction { prepare(a: &Account) { var h: fun(Int): Int = fun (_ n: Int): Int { return n }; h = fun (_ n: Int): Int { if n <= 0 { return 0 }; return 1 + h(n - 1) }; let r = h(%d) } }", d)}
 	}
 	return meterx.Prog{Kind: "script", Src: fmt.Sprintf("access(all) fun f(_ n: Int): Int { if n <= 0 { return 0 }; return 1 + f(n - 1) }\naccess(all) fun main(): Int { return f(%d) }", d)}
+}
+
+// bdInitShapes: recursion whose cycle passes through a composite initializer.  A constructor call is one
+// invocation in both engines (interpreter: the constructor is a host function that runs the user's `init`;
+// VM: the constructor is one compiled function containing the initializer).  As with the other shapes the
+// recursive call has no call among its arguments and is not itself an argument.
+var bdInitShapes = []string{"sinit", "rinit", "rnest", "initm", "rinitev"}
+
+func bdInitProgram(d int, shape string) (meterx.Prog, bool) {
+	script := func(decls, body string) (meterx.Prog, bool) {
+		return meterx.Prog{Kind: "script", Src: decls + fmt.Sprintf("\naccess(all) fun main(): Int { %s }", fmt.Sprintf(body, d))}, true
+	}
+	switch shape {
+	case "sinit":
+		return script("access(all) struct S { access(all) let depth: Int\n init(_ n: Int) { if n <= 0 { self.depth = 0 } else { let s = S(n - 1); self.depth = s.depth + 1 } } }",
+			"let s = S(%d); return s.depth")
+	case "rinit", "rinitev":
+		ev := ""
+		if shape == "rinitev" {
+			ev = "access(all) event ResourceDestroyed(depth: Int = self.depth)\n "
+		}
+		return script("access(all) resource R { "+ev+"access(all) var depth: Int\n init(_ n: Int) { self.depth = 0; if n > 0 { let r <- create R(n - 1); self.depth = r.depth + 1; destroy r } } }",
+			"let r <- create R(%d); let x = r.depth; destroy r; return x")
+	case "rnest":
+		return script("access(all) resource R { access(all) var child: @R?\n access(all) let depth: Int\n init(_ n: Int) { self.depth = n; if n <= 0 { self.child <- nil } else { self.child <- create R(n - 1) } } }",
+			"let r <- create R(%d); let x = r.depth; destroy r; return x")
+	case "initm":
+		return script("access(all) struct S { access(all) var depth: Int\n init(_ n: Int) { self.depth = 0; if n > 0 { let k = self.step(n - 1); self.depth = k + 1 } }\n access(all) fun step(_ n: Int): Int { if n <= 0 { return 0 }; let s = S(n - 1); return s.depth + 1 } }",
+			"let s = S(%d); return s.depth")
+	}
+	return meterx.Prog{}, false
+}
+
+// bdSeqForms: the forms of invocation of the `seq` operations.  `call` is one loop iteration's statement
+// (it may use and must not decrease `acc`), `setup` runs once before the loop.  kind: "cadence" = each
+// iteration invokes one Cadence function (counted alike by both engines), "opt" = the same through optional
+// chaining, "nil" = optional chaining on nil (nothing is invoked), "native" = a host function (counted by
+// the interpreter's limiter only, see the known finding call-depth-counts-argument-nesting).
+type bdSeqForm struct{ name, kind, decls, setup, call string }
+
+const bdSeqT = "access(all) struct T { access(all) fun m(_ x: Int): Int { return x + 1 } }\n"
+const bdSeqR = "access(all) resource R { access(all) let v: Int\n init(_ v: Int) { self.v = v }\n access(all) fun m(_ x: Int): Int { return x + 1 } }\n"
+
+var bdSeqForms = []bdSeqForm{
+	{"fun", "cadence", "access(all) fun g(_ x: Int): Int { return x + 1 }\n", "", "acc = g(acc)"},
+	{"method", "cadence", bdSeqT, "let t = T()", "acc = t.m(acc)"},
+	{"optsome", "opt", bdSeqT, "let o: T? = T()", "acc = o?.m(acc) ?? 0"},
+	{"optnil", "nil", bdSeqT, "let o: T? = nil", "acc = (o?.m(acc) ?? acc) + 1"},
+	{"ref", "cadence", bdSeqT, "let t = T(); let r = &t as &T", "acc = r.m(acc)"},
+	{"optref", "opt", bdSeqT, "let t = T(); let r: &T? = &t as &T", "acc = r?.m(acc) ?? 0"},
+	{"optres", "opt", bdSeqR, "let o: @R? <- create R(1)", "acc = o?.m(acc) ?? 0"},
+	{"optvoid", "opt", "access(all) struct V { access(all) fun m(_ x: Int) { } }\n", "let o: V? = V()", "o?.m(acc); acc = acc + 1"},
+	{"closure", "cadence", "", "let c = fun (_ x: Int): Int { return x + 1 }", "acc = c(acc)"},
+	{"boundptr", "cadence", bdSeqT, "let t = T(); let b = t.m", "acc = b(acc)"},
+	{"funptr", "cadence", "access(all) fun g(_ x: Int): Int { return x + 1 }\n", "let p = g", "acc = p(acc)"},
+	{"cond", "cadence", "access(all) fun g(_ x: Int): Int { pre { x >= 0 } post { result > x } return x + 1 }\n", "", "acc = g(acc)"},
+	{"iface", "cadence", "access(all) struct interface I { access(all) fun m(_ x: Int): Int { pre { x >= 0 } } }\naccess(all) struct T: I { access(all) fun m(_ x: Int): Int { return x + 1 } }\n", "let t: {I} = T()", "acc = t.m(acc)"},
+	{"ctor", "cadence", "access(all) struct S { access(all) let v: Int\n init(_ v: Int) { self.v = v } }\n", "", "let s = S(acc + 1); acc = s.v"},
+	{"rctor", "cadence", bdSeqR, "", "let r <- create R(acc + 1); acc = r.v; destroy r"},
+	{"rctorev", "cadence", "access(all) resource R { access(all) event ResourceDestroyed(v: Int = self.v)\n access(all) let v: Int\n init(_ v: Int) { self.v = v } }\n", "", "let r <- create R(acc + 1); acc = r.v; destroy r"},
+	{"log", "native", "", "", "log(acc); acc = acc + 1"},
+	{"tostring", "native", "", "", "let s = acc.toString(); acc = acc + 1"},
+	{"append", "native", "", "let xs: [Int] = []", "xs.append(acc); acc = acc + 1"},
+	{"conv", "native", "", "", "let u = UInt64(acc); acc = acc + 1"},
+}
+
+// bdSeqProgram: the loop runs in the entry point (base 0) or inside `base` nested invocations of `nest`.
+func bdSeqProgram(k int, form string, base int) (meterx.Prog, bool) {
+	for _, f := range bdSeqForms {
+		if f.name != form {
+			continue
+		}
+		tail := ""
+		if f.name == "optres" {
+			tail = "destroy o; "
+		}
+		loop := fmt.Sprintf("%s; var acc = 0; var i = 0; while i < %d { %s; i = i + 1 }; %sreturn acc", f.setup, k, f.call, tail)
+		if f.setup == "" {
+			loop = loop[2:]
+		}
+		if base == 0 {
+			return meterx.Prog{Kind: "script", Src: f.decls + "access(all) fun main(): Int { " + loop + " }"}, true
+		}
+		return meterx.Prog{Kind: "script", Src: f.decls + "access(all) fun nest(_ n: Int): Int { if n > 0 { return nest(n - 1) }; " + loop + " }\n" +
+			fmt.Sprintf("access(all) fun main(): Int { return nest(%d) }", base-1)}, true
+	}
+	return meterx.Prog{}, false
 }
 
 func bdChild() {
@@ -280,6 +423,31 @@ func bdChild() {
 				shape = op[3]
 			}
 			out := meterx.Exec(w, bdDepthProgram(d, shape), rec, meterx.Options{UseVM: useVM, Seq: 7, StackDepthLimit: lim})
+			name := "interp"
+			if useVM {
+				name = "vm"
+			}
+			res = append(res, name+"="+out.Short())
+		}
+		fmt.Println(strings.Join(res, " "))
+	case "seq":
+		if len(op) != 5 {
+			fmt.Println("bad-request")
+			return
+		}
+		lim, _ := strconv.ParseUint(op[1], 10, 64)
+		k, _ := strconv.Atoi(op[2])
+		base, _ := strconv.Atoi(op[4])
+		p, ok := bdSeqProgram(k, op[3], base)
+		if !ok {
+			fmt.Println("bad-request")
+			return
+		}
+		var res []string
+		for _, useVM := range []bool{false, true} {
+			w := meterx.Setup(useVM)
+			rec := meterx.NewRec(10_000_000, 0, false)
+			out := meterx.Exec(w, p, rec, meterx.Options{UseVM: useVM, Seq: 7, StackDepthLimit: lim})
 			name := "interp"
 			if useVM {
 				name = "vm"
